@@ -303,11 +303,21 @@ def run(ctx):
 
     # ---- read_file dispatches to the same extractor
     import sharepoint2text
-    names = ["a.docx", "b.PDF", "c.tar.gz", "d.htm", "e.unknownext", "f.TXT", "g.dotm", "h.gz", "noext", ".docx", "i.Json"]
+    names = ["a.docx", "b.PDF", "c.tar.gz", "d.htm", "e.unknownext", "f.TXT", "g.dotm", "h.gz", "noext", ".docx", "i.Json",
+             "sub.d/j.md", "sub.d/k.tar.bz2", "sub.docx/l.txt", "sp ace/m n.csv", "sub.d/.hidden", "sub.d/n.", "o.b.c.xlsx"]
+    spellings = [lambda d, n: os.path.join(d, n),
+                 lambda d, n: d + "//" + n,
+                 lambda d, n: d + "/./" + n,
+                 lambda d, n: d + "/" + n.replace("/", "//"),
+                 lambda d, n: d + "/" + n.replace("/", "/./"),
+                 lambda d, n: d + "/sub.d/../" + n]
     with tempfile.TemporaryDirectory(dir="/var/tmp") as td:
         for nme in names:
-            fp = os.path.join(td, nme)
-            open(fp, "wb").write(b"hello")
+            os.makedirs(os.path.dirname(os.path.join(td, nme)), exist_ok=True)
+            open(os.path.join(td, nme), "wb").write(b"hello")
+        os.makedirs(os.path.join(td, "sub.d"), exist_ok=True)
+        for nme, spell in [(n, sp) for n in names for sp in spellings]:
+            fp = spell(td, nme)
             called = []
             _, _, want, _ = impl_case(router, fp)
             orig = router._get_extractor
